@@ -165,7 +165,7 @@ def run_N1(ctx, case):
             if obj != 'sp': q.n += 1; q.sat += 1; q.failed.append(('%s: %s of object %s' % (tag, kd, obj), {}))
         for (what, cnd) in m.obligations: q.prove(pcx, cnd, '%s: %s' % (tag, what))
         extent_checks(q, pcx, mem, 'extent(a64 code) ' + tag)
-    res, nq = explore(one, limit=200); q.n += nq
+    res, nq = explore(one, limit=1500); q.n += nq
     r_ = result('N1', tag, q, paths=npaths[0], detail='%d paths, emitted lengths %s' % (npaths[0], sorted(set(lens))))
     r_['words'] = sorted(set(words_seen))[:64]
     return r_
@@ -176,15 +176,14 @@ def simp64(t):
 
 def run_N1_group(ctx, case):
     out = []; op = case['opcode']
-    for d in range(8):
-        for s_ in range(8):
-            for nlit, lid in case['lits']: out.append(run_N1(ctx, dict(opcode=op, dst=d, src=s_, nlit=nlit, lid=lid)))
+    for (d, s_) in case['pairs']:
+        for nlit, lid in case['lits']: out.append(run_N1(ctx, dict(opcode=op, dst=d, src=s_, nlit=nlit, lid=lid)))
     agg = out[0].copy()
     for k in ('queries', 'unsat', 'sat', 'unknown', 'obligations', 'paths'): agg[k] = sum(o.get(k, 0) for o in out)
     agg['solver_s'] = round(sum(o['solver_s'] for o in out), 2)
     agg['failed'] = [f for o in out for f in o['failed']][:6]; agg['inconclusive'] = [f for o in out for f in o['inconclusive']][:6]
     agg['status'] = 'violated' if agg['failed'] else ('inconclusive' if agg['inconclusive'] else 'proved')
-    agg['case'] = 'opcode %d x 64 register pairs x literal states %s' % (op, case['lits'])
+    agg['case'] = 'opcode %d x register pairs %s x literal states %s' % (op, case['pairs'], case['lits'])
     # decoder cross-check of every concrete word this job executed
     words = sorted(set(w for o in out for w in o.get('words', [])))
     if words:
@@ -199,6 +198,12 @@ def run_N1_group(ctx, case):
         if mism: agg['status'] = 'error'; agg['error'] = 'A64 decoder disagrees with llvm-objdump (engine defect): ' + '; '.join(mism[:3])
     return agg
 
+def pairs_N1(ctx, kind):
+    # every register index in both roles: (d,d) exercises the immediate forms, (d,d+1) the register forms; thorough: all 64 pairs
+    if ctx['tier'] != 'quick': return [(d, s_) for d in range(8) for s_ in range(8)]
+    if kind == 'CBRANCH': return [(0, 0), (5, 0)]
+    return [(d, d) for d in range(8)] + [(d, (d + 1) % 8) for d in range(8)]
+
 def jobs_N1(ctx):
     J = []
     lits = [(5, 3), (64, 14)] if ctx['tier'] == 'quick' else [(0, 0), (5, 3), (63, 11), (64, 12), (64, 30)]
@@ -206,7 +211,9 @@ def jobs_N1(ctx):
         lo, hi = P.RANGE[k]
         ops = [lo] if ctx['tier'] == 'quick' else sorted({lo, hi - 1})
         uses_lit = k in ('IADD_RS', 'IADD_M', 'ISUB_R', 'ISUB_M', 'IMUL_R', 'IMUL_M', 'IMULH_M', 'ISMULH_M', 'IMUL_RCP', 'IXOR_R', 'IXOR_M', 'FADD_M', 'FSUB_M', 'FDIV_M', 'CBRANCH', 'ISTORE')
-        for op in ops: J.append(dict(opcode=op, lits=lits if uses_lit else lits[:1]))
+        for op in ops:
+            prs = pairs_N1(ctx, k)
+            for c in range(0, len(prs), 4): J.append(dict(opcode=op, pairs=prs[c:c + 4], lits=(lits if uses_lit else lits[:1]) if k != 'CBRANCH' or ctx['tier'] != 'quick' else lits[:1]))
     return J
 
 # ------------------------------------------------------------------------------------------------ N0 / N2
@@ -260,7 +267,7 @@ def run_N0(ctx, case):
 LEMMAS = {
     'N1': dict(jobs=jobs_N1, run=run_N1_group, units=['a64'], a64=True, functions=['JitCompilerA64::h_* (30 emitters)', 'emitMovImmediate', 'emitAddImmediate', 'emitMemLoad', 'emitMemLoadFP', 'emit32', 'engine[256]'],
                doc='per-instruction translation validation of the ARM64 back-end: the A64 words emitted for an instruction word, executed under the A64 model from an arbitrary machine state in the runtime\'s register allocation, give the spec step: r0-r7, f, e, whole scratchpad, rounding mode (FPCR.RMode), branch target = reg_changed_offset of the branch register, last-writer bookkeeping; a0-a3, mask/literal registers and every other register preserved (x19, x20, v28, flags are scratch); accesses in bounds',
-               bound='first opcode of each of the 29 ranges (quick) / first and last (thorough); all 64 (dst,src) pairs; mod and imm32 symbolic; literal-pool fill states (32-bit literals used, reciprocal literals used) in {(5,3),(64,14)} (quick) / 5 states; any register file, scratchpad, FPCR, both versions',
+               bound='first opcode of each of the 29 ranges (quick) / first and last (thorough); register pairs (d,d) and (d,d+1) for every d (quick; CBRANCH: d in {0,5}) / all 64 (thorough); mod and imm32 symbolic; literal-pool fill states (32-bit literals used, reciprocal literals used) in {(5,3),(64,14)} (quick) / 5 states; any register file, scratchpad, FPCR, both versions',
                symbolic='mod, imm32, r0-r7, f/e/a, scratchpad, E masks, FPCR, every other register, literal pool content, program index, last-writer table and reg_changed_offset',
                stubs=['FP ops := uninterpreted functions of (rounding mode, operands), shared with the spec', 'randomx_reciprocal_fast := uninterpreted rcp (R1/R2)', 'A64 semantics: engine/a64sem.py (Arm ARM transcription; decoding cross-checked against llvm-objdump, semantics NOT validated on hardware)',
                       'frame facts assumed: x2 = scratchpad, v29/v30/v31 = and-mask/E or-mask/scale mask, x8 = rbit(FPCR), literal registers loaded from the literal pool (N0 checks the loads)'],
